@@ -3,7 +3,7 @@ from .common import *
 from .geomgen import *
 
 ID = "C06"
-PROPS_FILES = ["Props/C06", "Props/FixedPoint"]
+PROPS_FILES = ["Props/C06", "Props/C06AA", "Props/FixedPoint"]
 FRAGMENTS = ["fixed-point"]
 TRUSTED = [
     "Coq 8.16.1 kernel; Flocq (f32 -> FDot6 / FDot16 conversions)",
@@ -11,7 +11,7 @@ TRUSTED = [
     "harness/src/oracle.rs distance oracle for proximity / gaps / independence from the outside part of the path",
 ]
 ASSUMPTIONS = [
-    "float line clipping (line_clipper::intersect), curve subdivision and the whole anti-aliased hairline (hairline_aa.rs) are not modelled: oracle only (partial)",
+    "curve subdivision (hair_quad / hair_cubic) and the round / square cap extension of the anti-aliased hairline are not modelled: oracle only (partial); the anti-aliased hairline of line segments is modelled bit-exactly (Model/HairlineAA.v)",
 ]
 RULE = ("(a) aliased butt-cap hairlines of polylines inside the pixmap: the list of 1-pixel blits bit-exact against the Coq DDA; "
         "(b) stroke_path with width 0 / sub-pixel width, 3 caps, AA on/off, lines/quads/cubics, paths on x=0,y=0,x=W,y=H, "
